@@ -108,14 +108,14 @@ type change struct {
 }
 
 type treeProj struct {
-	Pkgs       map[string]pkgProj `json:"pkgs"`
-	Outs       []outFile          `json:"outs"`
-	SumPresent bool               `json:"sum_present"`
-	SumDigest  string             `json:"sum_digest"`
-	SumLines   [][]string         `json:"sum_lines"`   // raw "path hash" lines as written, in file order
-	SumRead    [][]string         `json:"sum_read"`    // what sumfile.Load returns (sorted by path)
-	SumWellFormed bool            `json:"sum_wellformed"` // every line is exactly "path hash\n"
-	files      map[string]pipe.FileInfo
+	Pkgs          map[string]pkgProj `json:"pkgs"`
+	Outs          []outFile          `json:"outs"`
+	SumPresent    bool               `json:"sum_present"`
+	SumDigest     string             `json:"sum_digest"`
+	SumLines      [][]string         `json:"sum_lines"`      // raw "path hash" lines as written, in file order
+	SumRead       [][]string         `json:"sum_read"`       // what sumfile.Load returns (sorted by path)
+	SumWellFormed bool               `json:"sum_wellformed"` // every line is exactly "path hash\n"
+	files         map[string]pipe.FileInfo
 }
 
 func project(root, layout string) (treeProj, error) {
